@@ -667,8 +667,15 @@ class Stmts:
             init = self.idx.find_method(name, '__init__')
             key = f'{init.module}:{init.qualname}' if init is not None else None
             if key is not None and key in self.contracts:
-                obj = VVal(th.fresh('new_' + name), fresh=True, kind='rec' if not self.idx.is_subclass(name, 'Converter') else 'conv', cls=None)
-                st.add(obj.term != th.NoneV)
+                # the new object is a deterministic function of the constructor arguments (so that a specification can
+                # denote "the converter built by K(args)"); its state is what __init__'s contract ensures
+                f0 = VFunc(init.node, {}, init.module, init.qualname, self_sv=None, cls=name)
+                penv = self.bind_params(init.node, [self.none()] + list(args), kwargs, st, module=init.module)
+                pn = [p.arg for p in init.node.args.posonlyargs + init.node.args.args + init.node.args.kwonlyargs][1:]
+                argv = [self.toVal(penv[p], st) for p in pn]
+                t_ = th.fn('new_' + name, *([th.Val] * len(argv)), th.Val)(*argv) if argv else th.const('new0:' + name)
+                obj = VVal(t_, fresh=True, kind='rec' if not self.idx.is_subclass(name, 'Converter') else 'conv', cls=None)
+                st.add(obj.term != th.NoneV, th.isc(name)(obj.term))
                 f = VFunc(init.node, {}, init.module, init.qualname, self_sv=obj, cls=name)
                 res = []
                 for r, s in self.apply_contract(self.contracts[key], f, obj, args, kwargs, st, node):
